@@ -197,12 +197,21 @@ class SigmaCollection:
                     else:
                         raise exception
 
-        return cls(
+        collection = cls(
             init_rules=parsed_rules,
             errors=errors,
             collect_filters=collect_filters,
-            resolve_references=resolve_references,
+            resolve_references=False,
         )
+        if resolve_references:
+            try:
+                collection.resolve_rule_references()
+            except SigmaRuleNotFoundError as e:
+                if collect_errors:  # a dangling rule reference is a load error like any other
+                    collection.errors.append(e)
+                else:
+                    raise
+        return collection
 
     @classmethod
     def from_yaml(
